@@ -270,10 +270,12 @@ class CallMixin:
                 fld = self.class_decl(recv.s.cls)
                 res.extend(self.opaque_call(e, s1, exc, expect))
                 continue
+            was_opt = None
             if isinstance(recv.s, Opt) and not isinstance(recv.s.inner, Obj):
                 s1 = self.raise_if(s1, recv.is_none, "AttributeError", e, exc, "method of None: " + ast.unparse(f))
                 if s1 is None:
                     continue
+                was_opt = recv.s
                 recv = recv.s.val(recv)
             m = None
             if isinstance(recv.s, Seq) or recv.s == POLY_LIST:
@@ -289,7 +291,7 @@ class CallMixin:
                     raise EngineError("method %s of %s is not encoded (L%d)" % (attr, recv.s, e.lineno))
                 res.extend(self.opaque_call(e, s1, exc, expect))
                 continue
-            lv = self.lvalue(f.value, s1, exc)
+            lv = self._unwrap_lv(self.lvalue(f.value, s1, exc), was_opt)
             expects = None
             if isinstance(recv.s, Seq):
                 expects = {"append": [recv.s.elem], "extend": [recv.s], "insert": [INT, recv.s.elem],
@@ -303,15 +305,25 @@ class CallMixin:
                 expects = (expects + [None] * n_exprs)[:n_exprs]
             for s2, (args, kw) in self.ev_args(e, s1, exc, expects):
                 if lv is not None and s2 is not s1:
-                    lv = self.lvalue(f.value, s2, exc)
+                    lv = self._unwrap_lv(self.lvalue(f.value, s2, exc), was_opt)
                 res.extend(m(recv if lv is None else lv.get(), lv, args, kw, s2, e, exc))
         return res
+
+    @staticmethod
+    def _unwrap_lv(lv, opt):
+        """An lvalue holding Optional[container], seen as the container (the None case was split off before)."""
+        if lv is None or opt is None:
+            return lv
+        return LValue(lambda: opt.val(lv.get()), lambda v: lv.set(opt.some(v)), lv.desc)
 
     def setrecv(self, node, st, exc, value):
         """Write `value` back to the receiver of the method call `node`, resolved in the *current* state."""
         lv = self.lvalue(node.func.value, st, exc)
         if lv is None:
             raise EngineError("mutation of a temporary container (L%d): %s" % (node.lineno, ast.unparse(node)))
+        cur = lv.get()
+        if isinstance(cur.s, Opt) and not isinstance(value.s, Opt):
+            value = cur.s.some(value)
         lv.set(value)
 
     def _mut(self, lv, node):
@@ -708,6 +720,16 @@ class CallMixin:
     def map_copy(self, recv, lv, args, kw, st, node, exc):
         return [(st, recv)]
 
+    def map_clear(self, recv, lv, args, kw, st, node, exc):
+        self._mut(lv, node)
+        self.setrecv(node, st, exc, recv.s.empty())
+        return [(st, S.NONEV())]
+
+    def set_clear(self, recv, lv, args, kw, st, node, exc):
+        self._mut(lv, node)
+        self.setrecv(node, st, exc, recv.s.empty())
+        return [(st, S.NONEV())]
+
     def map_items(self, recv, lv, args, kw, st, node, exc):
         return [(st, V(ITER, ("items", recv)))]
 
@@ -1049,6 +1071,11 @@ class CallMixin:
         res = []
         for s1, a, kw in self._args1(e, st, exc):
             v = a[0]
+            if isinstance(v.s, Opt) and isinstance(v.s.inner, Seq):
+                s1 = self.raise_if(s1, v.is_none, "TypeError", e, exc, "reversed(None)")
+                if s1 is None:
+                    continue
+                v = v.s.val(v)
             if isinstance(v.s, Seq):
                 nv = self.fresh(v.s, "rev", s1)
                 self.assume_perm(s1, v, nv)
